@@ -1290,7 +1290,12 @@ impl VirtualFileSystem for Memfs {
     /// assert_eq!(vfs.is_dir(&dir), true);
     /// ```
     fn is_dir<T: AsRef<Path>>(&self, path: T) -> bool {
-        self._is_dir(&self.read_guard(), path)
+        let guard = self.read_guard();
+        let abs = unwrap_or_false!(self._abs(&guard, path));
+        match guard.get_entry(&abs) {
+            Some(entry) => !entry.is_symlink() && entry.is_dir(),
+            None => false,
+        }
     }
 
     /// Returns true if the given path exists and is a file
@@ -1312,7 +1317,7 @@ impl VirtualFileSystem for Memfs {
         let guard = self.read_guard();
         let abs = unwrap_or_false!(self._abs(&guard, path));
         match guard.get_entry(&abs) {
-            Some(entry) => entry.is_file(),
+            Some(entry) => !entry.is_symlink() && entry.is_file(),
             None => false,
         }
     }
